@@ -300,6 +300,9 @@ fn push_case(ctx: &Ctx, sink: &mut Sink, cwd: &Path, baseline: &str, args: &[Str
         if args[i - 1] == "-files0-from" && args[i] == "-" { args[i] = "names0".into(); }
     }
     let ext = ext_of(cwd, &args);
+    let words0: Vec<String> = args.iter().map(|w| hex(w.as_bytes())).collect();
+    // noted before the run: if find never returns, the orchestrator reports this case
+    let _ = std::fs::write(ctx.outdir.join("current_case.txt"), format!("cmdline {ext} {}", crate::wire::list(&words0)));
     let imp = observe(ctx, cwd, &args);
     let mut tags = tags;
     tags.push("nt");
